@@ -52,11 +52,12 @@ def gmLinkRaw (base a0 a1raw : Str) (hostF portF : Option Str) : Option Entry :=
              host := gmHost hostF, port := port }
     | _, _ => none
 
-/-- links on this server are filled in from the file system when the authored selector passes
-    the security filter and the object exists -/
+/-- links on this server are filled in from the file system when the authored selector is a path
+    below the root (leading slash: `root + selector` without one names a sibling of the root),
+    passes the security filter and the object exists -/
 def gmPopulate (forbidden : List Str) (eaexts : List (Str × Str)) (defaultMime : Str)
     (pop : Str → Option PopInfo) (e : Entry) : Entry :=
-  if e.host.isNone && e.port.isNone && secureB forbidden e.selector then
+  if e.host.isNone && e.port.isNone && e.selector.head? == some 47 && secureB forbidden e.selector then
     match pop e.selector with
     | some pi => populateWith eaexts defaultMime pi e
     | none => e
